@@ -2016,6 +2016,11 @@ class CParser:
     # BNF: constant : INT_CONST | FLOAT_CONST | CHAR_CONST
     def _parse_constant(self) -> c_ast.Node:
         tok = self._advance()
+        if tok.type == "INT_CONST_CHAR":
+            # A multi-character constant has type int whatever letters it
+            # contains; 'u'/'l' inside the quotes are not suffixes.
+            return c_ast.Constant("int", tok.value, self._tok_coord(tok))
+
         if tok.type in _INT_CONST:
             u_count = 0
             l_count = 0
